@@ -38,6 +38,16 @@ Example C03_nonvacuous :
   law [(KBlocker false, SNone); (KBlocker false, SFired)] (VB true) = SNone.
 Proof. repeat split. Qed.
 
+(* ---- the executable judgement the correspondence check evaluates on implementation traces (coq/Check) is sound for the
+   model on EVERY scenario of the profile, and transfers to every trace that agrees with the model's run ---- *)
+From BEI Require Check.C03c Proofs.JudgeC03P.
+Theorem C03_app_judgement_sound : forall sc, JudgeC03P.profile_C03b sc = true -> C03c.ok (sc, App.trace (App.run sc)) = 0%Z.
+Proof. exact JudgeC03P.C03_judgement_sound. Qed.
+
+Theorem C03_app_judgement_transfer : forall sc t, JudgeC03P.profile_C03b sc = true -> App.agree_full (sc, t) = true -> C03c.ok (sc, t) = 0%Z.
+Proof. exact JudgeC03P.C03_judgement_transfer. Qed.
+
+
 Print Assumptions C03_tracker_law.
 Print Assumptions C03_conditions_keep_value.
 Print Assumptions C03_both_levels.
@@ -68,3 +78,5 @@ Proof.
   unfold rec_events. rewrite H2. reflexivity.
 Qed.
 Print Assumptions C03_every_evaluation_of_a_frame.
+Print Assumptions C03_app_judgement_sound.
+Print Assumptions C03_app_judgement_transfer.
